@@ -6,8 +6,10 @@
      * alpha: the in-place alpha application loop of decoder.rs equals the container specification's un-filtering for
        all four filters, including first row / first column, and leaves colour bytes alone.
    Not proved here (inherited links): that the planes fed to the conversion are the RFC 6386 reconstruction (property
-   C02) and that a compressed ALPH payload decodes to the stream the specification defines (property C01); both are
-   exercised end to end by the still-level differential check against libwebp (harness c05). *)
+   C02) and that a compressed ALPH payload decodes to the stream the specification defines (property C01).  The composed
+   specification Spec.Still.decode_still (container -> Spec.VP8.decode -> Spec.YUV -> Spec.Alpha, Spec.VP8L for compressed
+   alpha) is executable; on every run the whole-still correspondence read_image(file) = Spec.Still.decode_still(file) is
+   checked on generated stills with every ALPH variant (harness c05), next to the native comparison with libwebp. *)
 From Coq Require Import ZArith List.
 From WebP Require Import Gen.Kernels Lib.ZBits Lib.Res Spec.YUV Model.Yuv Spec.Alpha Model.Alpha Proofs.C13_yuv Proofs.Alpha_unfilter.
 Import ListNotations.
